@@ -18,8 +18,10 @@ def plan(ctx):
             for variant in range(2 if tier == "quick" else 4):
                 items.append({"kind": "forjoin", "n": n, "m": m, "key": key, "seed": seed * 1000 + k, "cap": 60.0 if tier == "quick" else 240.0})
                 k += 1
-            items.append({"kind": "join", "n": n, "m": m, "key": key, "assoc": False, "strict": True, "cap": 60.0 if tier == "quick" else 240.0})
-            items.append({"kind": "join", "n": n, "m": m, "key": key, "assoc": False, "strict": False, "cap": 60.0 if tier == "quick" else 240.0})
+            if not key.startswith("("):
+                # (arrays of tuples are always joined on their first component, so a tuple key has no payload-free form)
+                items.append({"kind": "join", "n": n, "m": m, "key": key, "assoc": False, "strict": True, "cap": 60.0 if tier == "quick" else 240.0})
+                items.append({"kind": "join", "n": n, "m": m, "key": key, "assoc": False, "strict": False, "cap": 60.0 if tier == "quick" else 240.0})
             items.append({"kind": "join", "n": n, "m": m, "key": key, "assoc": True, "strict": True, "cap": 60.0 if tier == "quick" else 240.0})
     for n in range(1, 7 if tier == "quick" else 9):
         for bits, ebits in ((1, 1), (2, 2), (1, 3), (2, 3)) if tier == "quick" else ((1, 1), (2, 2), (3, 3), (1, 3), (2, 4)):
